@@ -57,7 +57,7 @@ var c19Names = []string{
 var c19Errs = []error{errSimIO, io.ErrUnexpectedEOF, io.ErrClosedPipe, fmt.Errorf("wrapped: %w", io.ErrUnexpectedEOF)}
 
 type c19Opener struct {
-	errKind  int
+	errKind int
 	// parallel: the caller keeps names and contents in two parallel slices and finds a file's content
 	// by its position in the very list it handed to Hash1
 	parallel bool
